@@ -94,6 +94,12 @@ def gen_random(seed: int, n: int, long_p: float = 0.1) -> List[Dict[str, Any]]:
                 steps.append([t, "add", rng.randint(1, len(srcs)), spec])
             elif sid:
                 steps.append([t, "remove", rng.randint(1, len(srcs)), rng.randint(1, sid)])
+        for src in srcs:                  # every third schedule is created the public way: kicker.schedule_by_*(source, ...)
+            for x in src["sched"]:
+                x["viak"] = x["sid"] % 3 == 0
+        for st in steps:
+            if st[1] == "add":
+                st[3]["viak"] = st[3]["sid"] % 3 == 0
         out.append({"cfg": {"start": start, "horizon": horizon, "srcs": srcs, "kickfail": kickfail, "kicklat": rng.choice([0, 0, 0, 300])},
                     "steps": steps, "family": "sched_random"})
         if rng.random() < 0.1:
